@@ -110,9 +110,17 @@ class Scenario:
         moves = {}
         self.move_objs: list[str] = []
         self.label_objs: list[str] = []
+        made_top: list[str] = []
         for i, spec in enumerate(self.table):
-            name = spec.name or f"m{i}"
-            mobj = self._make_move(m, spec, f"move{i}")
+            if isinstance(spec, int):
+                # the same move object stored under a second name
+                name = f"m{i}"
+                mobj = made_top[spec]
+                spec = self.table[spec]
+            else:
+                name = spec.name or f"m{i}"
+                mobj = self._make_move(m, spec, f"move{i}")
+            made_top.append(mobj)
             mci = m.cls_of[mobj]
             crit_ci = prog.cls(spec.criteria) if spec.criteria else self.default_criteria(mci)
             if crit_ci is None:
@@ -190,6 +198,9 @@ class Scenario:
         if full == "numpy.setdiff1d":
             return Opaque("setdiff1d", True)
         if full == "numpy.unique":
+            if args and isinstance(args[0], list):
+                # labels collected from successive draws over candidate sets that exclude the ones already taken
+                return list(args[0])
             return Opaque("unique", True)
         return None
 
@@ -246,7 +257,7 @@ class Scenario:
                     drev = any(c.endswith(".revert_state") and c.split(".")[0] in _driver_names(prog, self.driver) for c in calls)
                     outcome = "raised" if raised else ("accepted" if dsave else ("rejected" if drev else "failed"))
                     rec = TrialRecord(
-                        self.driver.name, "+".join(s.label() for s in self.table), mname, mobj, mm.cls_of[mobj].name, outcome,
+                        self.driver.name, "+".join(s.label() if not isinstance(s, int) else f"same#{s}" for s in self.table), mname, mobj, mm.cls_of[mobj].name, outcome,
                         before, copy.deepcopy(mm.heap["atoms"]), ctx_before, dict(mm.heap["ctx"]), mm.events[ev0:], mm.evals - evals0,
                         list(mm.ch.labels), mm, k, mm.cls_of[mm.heap[sobj]["criteria"].obj].name, calls, raised,
                     )
